@@ -48,6 +48,15 @@ fn vtimer(d: Duration) -> BoxFuture<'static, ()> {
   Box::pin(VTimer { due: NOW.with(|n| n.get()) + d.as_nanos() })
 }
 
+pub fn reset_clock() {
+  NOW.with(|n| n.set(0));
+  TIMER_REQS.with(|r| r.borrow_mut().clear());
+}
+
+pub fn advance_ms(n: u64) {
+  NOW.with(|c| c.set(c.get() + (n as u128) * MS));
+}
+
 pub fn install_timer() {
   let _ = rxrust::scheduler::NEW_TIMER_FN.set(vtimer);
 }
